@@ -197,6 +197,19 @@ class Scenario:
         return ok
 
 
+def partial(cls):
+    """an instance assembled by the harness without running the real constructor (only the attributes the function under contract
+    reads are set).  If changed code reads an attribute the harness does not provide, that is a limit of the harness: the symbolic run
+    becomes `unsupported`, the native run is discarded -- never a violation."""
+    o = object.__new__(cls)
+    o.__dict__["__nss_partial__"] = True
+    return o
+
+
+class HarnessLimit(Exception):
+    pass
+
+
 def close(a, b, rtol=1e-9, atol=1e-12):
     a = np.asarray(a, dtype=float)
     b = np.asarray(b, dtype=float)
@@ -355,6 +368,8 @@ class FunctionCheck:
                 rc = flat(self.run_native({k: (x.copy() if isinstance(x, np.ndarray) else x) for k, x in v.items()}))
         except Exception as ex:
             exc_c = ex
+            if isinstance(ex, AttributeError) and "object has no attribute" in str(ex) and self._partial_types() and any(("'%s' object" % t) in str(ex) for t in self._partial_types()):
+                return None  # harness-built object lacks an attribute the (changed) code reads: nothing can be concluded natively
         try:
             with np.errstate(all="ignore"):
                 rs = flat(self.run_spec_native({k: (x.copy() if isinstance(x, np.ndarray) else x) for k, x in v.items()}))
@@ -375,6 +390,19 @@ class FunctionCheck:
                 return {"clause": "post.%s" % name, "code": np.asarray(a, dtype=float).tolist() if np.size(a) <= 8 else str(a)[:200],
                         "spec": np.asarray(b, dtype=float).tolist() if np.size(b) <= 8 else str(b)[:200]}
         return None
+
+    def _partial_types(self):
+        if not hasattr(self, "_ptypes"):
+            self._ptypes = set()
+            try:
+                rng = np.random.default_rng(0)
+                fn, args, kwargs = self.sc.build(self.sc.native_vals(rng, 2))
+                for o in [getattr(fn, "__self__", None)] + list(args):
+                    if getattr(o, "__dict__", {}).get("__nss_partial__"):
+                        self._ptypes.add(type(o).__name__)
+            except Exception:
+                pass
+        return self._ptypes
 
     def valid_native(self, rng, n, model=None):
         """native inputs satisfying the precondition (rejection sampling; a planted model that
